@@ -14,7 +14,7 @@ def bit_of_byte_int(byte, k):
     return (I(byte) / (2 ** (7 - k))) % 2 == 1
 
 
-@unit('BitArray.tolist/post', props=['C01', 'C02', 'C17'], functions=[BA + '.tolist', BA + '.frombytes', BA + '.__init__'])
+@unit('BitArray.tolist/post', props=['C01', 'C02', 'C06', 'C07', 'C08', 'C10', 'C12', 'C16', 'C17', 'C19', 'C20'], functions=[BA + '.tolist', BA + '.frombytes', BA + '.__init__'])
 def u_tolist(E):
     """bit 8j+k of the list is bit (7-k) of byte j - most significant bit first (ISO 8583 bit 1 = first bit of first byte)"""
     ba = E.instantiate(E.program.classes[BA], [], {})
@@ -34,7 +34,7 @@ def u_tolist(E):
     E.prove('BitArray.tolist/bit-order-msb-first', z3.And(*conj), 'P')
 
 
-@unit('BitArray.fromlist/post', props=['C01', 'C02'], functions=[BA + '.fromlist', BA + '.tobytes'])
+@unit('BitArray.fromlist/post', props=['C01', 'C02', 'C06', 'C12', 'C19', 'C20'], functions=[BA + '.fromlist', BA + '.tobytes'])
 def u_fromlist(E):
     ba = E.instantiate(E.program.classes[BA], [], {})
     bits = [z3.Bool('x%d' % k) for k in range(128)]
@@ -54,7 +54,7 @@ def u_fromlist(E):
     E.prove('BitArray.fromlist/bit-order-msb-first', z3.And(*conj), 'P')
 
 
-@unit('BitArray/bridge-lemma', props=['C01', 'C02', 'C17'], functions=[])
+@unit('BitArray/bridge-lemma', props=['C01', 'C02', 'C06', 'C07', 'C08', 'C10', 'C12', 'C16', 'C17', 'C19', 'C20'], functions=[])
 def u_bridge(E):
     """the arithmetic rendering used by integer-domain callers is the same byte: value = sum of bit_k * 2^(7-k)"""
     x = z3.BitVec('x', 8)
@@ -62,6 +62,27 @@ def u_bridge(E):
     conj = [((v / (2 ** (7 - k))) % 2 == 1) == (z3.Extract(7 - k, 7 - k, x) == 1) for k in range(8)]
     E.prove('bridge/bit-k-of-byte', z3.And(*conj), 'P', 'lemma')
     E.prove('bridge/byte-from-bits', v == sum(z3.If(z3.Extract(7 - k, 7 - k, x) == 1, 2 ** (7 - k), 0) for k in range(8)), 'P', 'lemma')
+
+
+@unit('_get_bitmap_list/post', props=['C01', 'C02', 'C06', 'C07', 'C08', 'C10', 'C12', 'C16', 'C17', 'C19', 'C20'], functions=['cardutil.iso8583._get_bitmap_list', BA + '.tolist', BA + '.frombytes', BA + '.__init__'])
+def u_get_bitmap_list(E):
+    """element b (1..128) of the list is bit b of the 16-byte bitmap, most significant bit of the first byte = bit 1, for
+    EVERY bitmap (bit 1 is an ordinary bit: it does not switch elements 65..128 on or off); element 0 is the bitmap itself"""
+    bs = seq_items('bytes', [z3.BitVec('b%d' % k, 8) for k in range(16)])
+    out = E.list_val(E.call('cardutil.iso8583._get_bitmap_list', bs))
+    E.prove('_get_bitmap_list/129-entries', out.n == 129, 'P')
+    out = E.fix_len(out)
+    if out.clen() != 129:
+        return
+    E.prove('_get_bitmap_list/entry-0-is-the-bitmap', z3.BoolVal(out.at(z3.IntVal(0)) is bs), 'I')
+    conj = []
+    for b in range(1, 129):
+        v = out.at(z3.IntVal(b))
+        if not isinstance(v, VBool):
+            E.prove('_get_bitmap_list/entries-are-bool', False, 'P')
+            return
+        conj.append(v.t == (z3.Extract(7 - (b - 1) % 8, 7 - (b - 1) % 8, bs.items[(b - 1) // 8]) == 1))
+    E.prove('_get_bitmap_list/entry-b-is-bit-b-msb-first-for-every-bitmap', z3.And(*conj), 'P')
 
 
 def install_bitarray_contracts(E):
